@@ -1,6 +1,6 @@
 // Package gen holds the case generators of the correspondence check: one
-// PRNG state, expression trees with printers (explicit and abbreviated
-// syntax), document generators, and one generator per property domain.
+// PRNG state, expression trees with token-level printers (explicit and
+// abbreviated syntax, white-space placement), document generators.
 package gen
 
 import (
@@ -31,12 +31,75 @@ func (r *Rand) U64() uint64              { return r.next() }
 // Mode selects the concrete syntax.
 type Mode struct {
 	Abbrev bool // a for child::a, @a, ., .., //
-	Spaces int  // 0 none, 1 around binary operators
+	Spaces int  // 0 minimal, 1 around binary operators
 }
 
+// Ex is an expression tree that prints itself as a token list.
 type Ex interface {
-	Str(m Mode) string
+	Toks(m Mode) []string
 }
+
+// nameLike reports whether byte c can be part of a name or number token.
+func nameLike(c byte) bool {
+	return c == '_' || c == '-' || c == '.' || (c >= '0' && c <= '9') || (c >= 'a' && c <= 'z') || (c >= 'A' && c <= 'Z') || c >= 0x80
+}
+
+// SepRequired decides whether white space is needed between two tokens.
+func SepRequired(a, b string) bool {
+	if a == "" || b == "" {
+		return false
+	}
+	x, y := a[len(a)-1], b[0]
+	if nameLike(x) && nameLike(y) {
+		return true
+	}
+	// '*' directly after a name-like token would still lex, but keep "a * b" readable
+	// cases that would glue into another token
+	switch {
+	case x == '/' && y == '/':
+		return true
+	case x == '<' && y == '=', x == '>' && y == '=', x == '!' && y == '=':
+		return true
+	case x == '.' && y == '.':
+		return true
+	case x == ':' && y == ':':
+		return false
+	}
+	return false
+}
+
+// Join renders a token list with the fewest separators.
+func Join(toks []string) string {
+	var b strings.Builder
+	for i, t := range toks {
+		if i > 0 && SepRequired(toks[i-1], t) {
+			b.WriteByte(' ')
+		}
+		b.WriteString(t)
+	}
+	return b.String()
+}
+
+// JoinSpaced renders a token list with a separator chosen per boundary:
+// sep(i) is consulted for boundary i (between token i-1 and i) when white space
+// is optional there.  Boundaries inside a QName / axis '::' are never split by
+// the token printers (they emit such pieces as one token).
+func JoinSpaced(toks []string, sep func(i int) string) string {
+	var b strings.Builder
+	for i, t := range toks {
+		if i > 0 {
+			s := sep(i)
+			if s == "" && SepRequired(toks[i-1], t) {
+				s = " "
+			}
+			b.WriteString(s)
+		}
+		b.WriteString(t)
+	}
+	return b.String()
+}
+
+func Str(e Ex, m Mode) string { return Join(e.Toks(m)) }
 
 type Step struct {
 	Axis, Test string
@@ -50,53 +113,64 @@ type Path struct {
 	Steps []Step
 }
 
-func stepStr(s Step, m Mode) string {
-	var b strings.Builder
+func stepToks(s Step, m Mode) []string {
+	var t []string
 	switch {
 	case m.Abbrev && s.Axis == "self" && s.Test == "node()":
-		b.WriteString(".")
+		t = append(t, ".")
 	case m.Abbrev && s.Axis == "parent" && s.Test == "node()":
-		b.WriteString("..")
+		t = append(t, "..")
 	case m.Abbrev && s.Axis == "child":
-		b.WriteString(s.Test)
+		t = append(t, testToks(s.Test)...)
 	case m.Abbrev && s.Axis == "attribute":
-		b.WriteString("@" + s.Test)
+		t = append(t, "@")
+		t = append(t, testToks(s.Test)...)
 	default:
-		b.WriteString(s.Axis + "::" + s.Test)
+		t = append(t, s.Axis, "::")
+		t = append(t, testToks(s.Test)...)
 	}
 	for _, p := range s.Preds {
-		b.WriteString("[" + p.Str(m) + "]")
+		t = append(t, "[")
+		t = append(t, p.Toks(m)...)
+		t = append(t, "]")
 	}
-	return b.String()
+	return t
 }
 
-func (p Path) Str(m Mode) string {
-	var b strings.Builder
-	sep := func(ds bool) string {
+func testToks(t string) []string {
+	if strings.HasSuffix(t, "()") {
+		return []string{t[:len(t)-2], "(", ")"}
+	}
+	return []string{t}
+}
+
+func (p Path) Toks(m Mode) []string {
+	var t []string
+	sep := func(ds bool) []string {
 		if !ds {
-			return "/"
+			return []string{"/"}
 		}
 		if m.Abbrev {
-			return "//"
+			return []string{"//"}
 		}
-		return "/descendant-or-self::node()/"
+		return []string{"/", "descendant-or-self", "::", "node", "(", ")", "/"}
 	}
 	if p.Base != nil {
-		b.WriteString(p.Base.Str(m))
+		t = append(t, p.Base.Toks(m)...)
 	}
 	for i, s := range p.Steps {
 		if i > 0 || p.Abs || p.Base != nil {
-			b.WriteString(sep(s.DSlash))
+			t = append(t, sep(s.DSlash)...)
 		} else if s.DSlash {
 			// a relative path cannot start with '//': spell the step out
-			b.WriteString("descendant-or-self::node()/")
+			t = append(t, "descendant-or-self", "::", "node", "(", ")", "/")
 		}
-		b.WriteString(stepStr(s, m))
+		t = append(t, stepToks(s, m)...)
 	}
 	if p.Abs && len(p.Steps) == 0 {
-		b.WriteString("/")
+		t = append(t, "/")
 	}
-	return b.String()
+	return t
 }
 
 type Bin struct {
@@ -104,52 +178,73 @@ type Bin struct {
 	L, R Ex
 }
 
-func (x Bin) Str(m Mode) string {
-	alpha := x.Op[0] >= 'a' && x.Op[0] <= 'z'
-	if alpha || m.Spaces > 0 || x.Op == "-" || x.Op == "*" {
-		return x.L.Str(m) + " " + x.Op + " " + x.R.Str(m)
-	}
-	return x.L.Str(m) + x.Op + x.R.Str(m)
+func (x Bin) Toks(m Mode) []string {
+	t := append([]string{}, x.L.Toks(m)...)
+	t = append(t, x.Op)
+	return append(t, x.R.Toks(m)...)
 }
 
 type Neg struct{ E Ex }
 
-func (x Neg) Str(m Mode) string { return "-" + x.E.Str(m) }
+func (x Neg) Toks(m Mode) []string { return append([]string{"-"}, x.E.Toks(m)...) }
 
 type Call struct {
 	Name string
 	Args []Ex
 }
 
-func (x Call) Str(m Mode) string {
-	var a []string
-	for _, e := range x.Args {
-		a = append(a, e.Str(m))
+func (x Call) Toks(m Mode) []string {
+	t := []string{x.Name, "("}
+	for i, e := range x.Args {
+		if i > 0 {
+			t = append(t, ",")
+		}
+		t = append(t, e.Toks(m)...)
 	}
-	return x.Name + "(" + strings.Join(a, ",") + ")"
+	return append(t, ")")
 }
 
 type Num struct{ Text string }
 
-func (x Num) Str(Mode) string { return x.Text }
+func (x Num) Toks(Mode) []string { return []string{x.Text} }
 
-type Str struct{ S string }
+type Lit struct{ S string }
 
-func (x Str) Str(Mode) string {
+func (x Lit) Toks(Mode) []string {
 	if strings.Contains(x.S, "'") {
-		return `"` + x.S + `"`
+		return []string{`"` + x.S + `"`}
 	}
-	return "'" + x.S + "'"
+	return []string{"'" + x.S + "'"}
 }
 
 type Paren struct{ E Ex }
 
-func (x Paren) Str(m Mode) string { return "(" + x.E.Str(m) + ")" }
+func (x Paren) Toks(m Mode) []string {
+	t := []string{"("}
+	t = append(t, x.E.Toks(m)...)
+	return append(t, ")")
+}
 
-// Raw is spliced in verbatim.
+// Filter is a primary expression followed by predicates: (P)[n]
+type Filter struct {
+	E     Ex
+	Preds []Ex
+}
+
+func (x Filter) Toks(m Mode) []string {
+	t := append([]string{}, x.E.Toks(m)...)
+	for _, p := range x.Preds {
+		t = append(t, "[")
+		t = append(t, p.Toks(m)...)
+		t = append(t, "]")
+	}
+	return t
+}
+
+// Raw is spliced in verbatim (one token).
 type Raw struct{ S string }
 
-func (x Raw) Str(Mode) string { return x.S }
+func (x Raw) Toks(Mode) []string { return []string{x.S} }
 
 // Features collects what an expression exercises (input distribution).
 func Features(e Ex, out map[string]int) {
@@ -190,10 +285,17 @@ func Features(e Ex, out map[string]int) {
 		}
 	case Num:
 		out["num"]++
-	case Str:
+	case Lit:
 		out["str"]++
 	case Paren:
 		out["paren"]++
 		Features(x.E, out)
+	case Filter:
+		out["filterexpr"]++
+		Features(x.E, out)
+		for _, p := range x.Preds {
+			out["pred"]++
+			Features(p, out)
+		}
 	}
 }
